@@ -17,7 +17,7 @@ ASSUMPTIONS = ["a tuple of exactly two sequences is not used (documented legacy 
                "True, 2.0 and numpy integers as max_edits/n_cpu are in neither the valid nor the invalid class"]
 EXHAUSTIVE = {"quick": ["4 engines x 9 containers x {default,hamming} on fixed witnesses", "all invalid-argument classes x 4 engines"],
               "thorough": ["4 engines x 9 containers x 9 containers(seqs2) x {default,hamming}", "all invalid-argument classes x 4 engines"]}
-REQUIRE = {"format_cases": 36, "container_cases": 100, "container_series_nondefault_index": 40, "invalid_cases": 53,
+REQUIRE = {"invalid_combined_with_valid_options": 300, "format_cases": 36, "container_cases": 100, "container_series_nondefault_index": 40, "invalid_cases": 53,
            "matrix_cells_checked": 1000, "cross_shape_nonsquare": 10, "d0_triplets_in_matrix_cases": 5, "asymmetric_triplet_sets": 3}
 SHARDS = {"quick": 6, "thorough": 16}
 
@@ -167,10 +167,22 @@ def _invalid_args(cls, variant):
     raise KeyError(cls)
 
 
-def k_invalid(ctx, engine, cls, variant):
+def _first_mismatches(a, b):
+    return sum(x != y for x, y in zip(a, b)) + abs(len(a) - len(b))
+
+
+def k_invalid(ctx, engine, cls, variant, combo=None):
     fn = S.engine(engine)
     args, kwargs = _invalid_args(cls, variant)
     ctx.count("invalid_cases")
+    if combo:
+        # the same invalid argument next to other, valid, options (each search mode has its own dispatch path)
+        ctx.count("invalid_combined_with_valid_options")
+        extra = {"hamming": {"custom_distance": "hamming"}, "callable": {"custom_distance": _first_mismatches, "max_custom_distance": 2},
+                 "seqs2": {"seqs2": ["CAAA", "CAKA"]}, "hamming+seqs2": {"custom_distance": "hamming", "seqs2": ["CAAA", "CAKA"]}}[combo]
+        if combo.endswith("seqs2") and engine not in CROSS_ENGINES:
+            extra = {k: v for k, v in extra.items() if k != "seqs2"}
+        kwargs = dict(kwargs, **{k: v for k, v in extra.items() if k not in kwargs})
     ctx.nontriv(["I", engine, cls, variant])
     ctx.sample(f"invalid:{cls}", {"engine": engine, "class": cls, "args": args, "kwargs": kwargs})
     out = ctx.call(fn, *args, **kwargs)
@@ -235,6 +247,11 @@ def generate(tier, seed):
     for eng in CROSS_ENGINES:
         for v in range(3):
             yield "invalid", {"engine": eng, "cls": "non-string-seqs2", "variant": v}, True
+    for eng in ENGINES:
+        for combo in ("hamming", "callable", "seqs2", "hamming+seqs2"):
+            for cls, nvar in (("empty", 4), ("non-string", 7), ("max_edits", 6), ("n_cpu", 3), ("output_type", 5)):
+                for v in range(nvar):
+                    yield "invalid", {"engine": eng, "cls": cls, "variant": v, "combo": combo}, True
     pools = [G.universe("AC", 5), G.universe("ACD", 4), G.universe("AWY", 3)]
     n_rand = 4000 * TS if thorough else 260
     for i in range(n_rand):
